@@ -752,3 +752,6 @@ def run(ctx):
     # every listed thread goes through the stack step (same rule instance as C20/stack-decided-by-fill)
     from rules import c20 as _c20s
     _c20s.rule_stack_step_always(ctx, R="C06/stack-decided-by-fill")
+    # the stream this property talks about is all-or-nothing: generate_dump succeeds only if its writer returned Ok (rules/c01.py rule_hard_streams)
+    from rules import c01 as _c01h
+    _c01h.rule_hard_streams(ctx, R="C06/hard-streams", only=('thread_list_stream::write',))
